@@ -796,29 +796,7 @@ def _r6_identity(ctx, repo, A):
                sample={"early_return_false_on": "self._gone or self._pid_reused"})
     # every way is_running() can answer without comparing identities must make
     # the guard raise by itself
-    cmp_nodes = [n for n in cfg.nodes if n.kind == "stmt" and any(
-        dotted(c.func) in ("Process",) for c in calls_in(n.stmt))]
-    flags = set()
-    for n in cfg.nodes:
-        if n.kind != "return":
-            continue
-        if cfg.path_exists(cfg.entry, n, avoid=set(cmp_nodes)) or n in cmp_nodes:
-            for e, pol, _ in cfg.guards(n):
-                if pol is True:
-                    vals = e.values if isinstance(e, ast.BoolOp) and isinstance(e.op, ast.Or) \
-                        else [e]
-                    for v in vals:
-                        if dotted(v) and dotted(v).startswith("self."):
-                            flags.add(dotted(v))
-    gcfg = A.cfg(g)
-    for f in sorted(flags):
-        dead = set()
-        for b in gcfg.nodes:
-            if b.kind == "branch" and b.polarity in (True, False):
-                v = _eval3(b.expr, {f: True})
-                if v is not None and v != b.polarity:
-                    dead.add(b)
-        leaks = gcfg.exit in gcfg.reachable(gcfg.entry, avoid=dead)
+    for f, leaks in guard_cover(repo, A):
         if leaks:
             ctx.fail("C01.R6", f"guard-covers:{f}", g.file, g.node.lineno, g.qual,
                      f"is_running() answers early when {f} is set, without comparing "
@@ -839,6 +817,65 @@ def _r6_identity(ctx, repo, A):
     else:
         ctx.fail("C01.R6", "__eq__-ident", eq.file, eq.node.lineno, eq.qual,
                  "__eq__ no longer compares self._ident with other._ident")
+    # no other way to answer "equal": every further return is NotImplemented or
+    # sits in a branch that is dead on this platform (OpenBSD/NetBSD special case)
+    ecfg = A.cfg(eq)
+    for n in ecfg.nodes:
+        if n.kind != "return" or n.stmt is last:
+            continue
+        if isinstance(n.stmt.value, ast.Name) and n.stmt.value.id == "NotImplemented":
+            continue
+        if isinstance(n.stmt.value, ast.Constant) and n.stmt.value.value is False:
+            continue
+        if n not in ecfg.live_nodes():
+            continue
+        conds = [norm_stmt(e).replace(" ", "") for e, p, _ in ecfg.guards(n) if p is True]
+        if any(c in ("OPENBSDorNETBSD", "NETBSDorOPENBSD") for c in conds):
+            continue
+        ctx.fail("C01.R6", f"__eq__-extra:{norm_stmt(n.stmt)[:50]}", eq.file, n.line, eq.qual,
+                 f"`{norm_stmt(n.stmt)}` lets two Process objects compare equal without "
+                 f"equal identity tuples: is_running() (self == Process(pid)) then misses a "
+                 f"recycled PID and the signal/setter guard passes")
+
+
+def guard_cover(repo, A):
+    """[(flag, leaks)]: for every instance flag that lets is_running() answer
+    without comparing identities, can _raise_if_pid_reused() return normally
+    although that flag is set?  (shared with C05: the tree walk relies on the
+    same guard)"""
+    g = repo.func("psutil", "Process._raise_if_pid_reused")
+    ir = repo.func("psutil", "Process.is_running")
+    cfg = A.cfg(ir)
+    cmp_nodes = [n for n in cfg.nodes if n.kind == "stmt" and any(
+        dotted(c.func) in ("Process",) for c in calls_in(n.stmt))]
+    flags = set()
+    for n in cfg.nodes:
+        if n.kind != "return":
+            continue
+        if cfg.path_exists(cfg.entry, n, avoid=set(cmp_nodes)) or n in cmp_nodes:
+            for e, pol, _ in cfg.guards(n):
+                if pol is True:
+                    vals = e.values if isinstance(e, ast.BoolOp) and isinstance(e.op, ast.Or) \
+                        else [e]
+                    for v in vals:
+                        if dotted(v) and dotted(v).startswith("self."):
+                            flags.add(dotted(v))
+    gcfg = A.cfg(g)
+    out = []
+    for f in sorted(flags):
+        dead = set()
+        for b in gcfg.nodes:
+            if b.kind == "branch" and b.polarity in (True, False):
+                v = _eval3(b.expr, {f: True})
+                if v is not None and v != b.polarity:
+                    dead.add(b)
+        out.append((f, gcfg.exit in gcfg.reachable(gcfg.entry, avoid=dead)))
+    # the guard must also CONSULT is_running(): a flag that was never computed
+    # cannot protect anything
+    consults = any(isinstance(c.func, ast.Attribute) and c.func.attr == "is_running"
+                   for c in calls_in(g.node))
+    out.append(("<is_running consulted>", not consults))
+    return out
 
 
 def _eval3(e, env):
